@@ -19,6 +19,7 @@ RULE = (
     'all traces of the hopping model for the listed (atoms, sites, frames) bounds, with shell '
     '(inner fraction < 1) and without (inner == outer), x minimal_residence in M; each (trace, m) is '
     'one execution of the real jump classifier; plus an end-to-end shard (histories concretised as real trajectories in a triclinic cell, inner fraction 0.5, framework atoms first); events/states unchanged by the classifier; distinct = distinct (trace-outcome over all m) tables'
+    '; one 33000-frame history with jumps after frame 32767 (m = 0, 3, 60)'
 )
 LEVEL_TEXT = (
     'Exhaustive exploration of every site/inner-site history up to the bound (1 atom x 3 sites x 6 '
